@@ -1,13 +1,18 @@
 import Driver.Util
 import Torf.Spec.Lists
+import Torf.Model.ListValues
 open Lean Torf Torf.Lists
 namespace Driver.C16
 
 /-! JSON codec (Python side: harness/props/c16.py)
 
   op   = {"on":"tr"|"ws"|"hs"|"tier", "op":name, …}   ("tier" additionally has "ti")
-  tier value = "str" | ["u",…];  trackers value = null | "str" | [tier value,…] | {"other":1}
-  seed value = null | "str" | ["u",…] | {"other":1}
+  every value ("u", "us", "v", "vs") is a Python value as far as the code can tell (`PyV`): a JSON
+  string = a str (also a URL object / str subclass), a JSON array = anything that is iterated (list,
+  tuple, generator, set in iteration order, dict keys, URLs object, Trackers object …) with its
+  items in iteration order, nested to any depth; the setters additionally take null (None) and
+  {"other":1} (neither None, str nor iterable).  The operation runs through `Torf.Lists.stepV`
+  (= `step` of its lowering, `C16_value_type_irrelevant`).
   mi   = {"announce":s|null, "announce-list":[[…]]|null, "url-list":[…]|null, "httpseeds":[…]|null}
   rb   = null | {"tr":[[…]], "ws":[…], "hs":[…]}
 -/
@@ -43,47 +48,61 @@ def seedVal (j : Json) : Except String SeedVal :=
   | .arr _ => .list <$> strs j
   | _ => pure .other
 
-def uop (name : String) (j : Json) : Except String UOp := do
+partial def pyv (j : Json) : Except String PyV :=
+  match j with
+  | .str s => pure (.str s)
+  | .arr a => .seq <$> a.toList.mapM pyv
+  | _ => throw "value: expected a string or an array"
+
+def uop (name : String) (j : Json) : Except String UVOp := do
   match name with
-  | "insert" => return .insert (← getInt j "i") (← getStr j "u")
-  | "append" => return .append (← getStr j "u")
-  | "extend" => return .extend (← strs (j.getObjValD "us"))
-  | "iadd" => return .iadd (← strs (j.getObjValD "us"))
-  | "delete" => return .delete (← getInt j "i")
-  | "delslice" => return .delSlice (← optInt j "a") (← optInt j "b")
-  | "clear" => return .clear
-  | "remove" => return .remove (← getStr j "u")
-  | "pop" => return .pop (← optInt j "i")
-  | "replace" => return .replace (← strs (j.getObjValD "us"))
-  | "setitem" => return .setItem (← getInt j "i") (← getStr j "u")
-  | "setslice" => return .setSlice (← optInt j "a") (← optInt j "b") (← optInt j "st") (← strs (j.getObjValD "us"))
-  | "reverse" => return .reverse
+  | "insert" => return .insert (← getInt j "i") (← pyv (j.getObjValD "u"))
+  | "append" => return .append (← pyv (j.getObjValD "u"))
+  | "extend" => return .extend (← pyv (j.getObjValD "us"))
+  | "iadd" => return .iadd (← pyv (j.getObjValD "us"))
+  | "delete" => return .plain (.delete (← getInt j "i"))
+  | "delslice" => return .plain (.delSlice (← optInt j "a") (← optInt j "b"))
+  | "clear" => return .plain .clear
+  | "remove" => return .plain (.remove (← getStr j "u"))
+  | "pop" => return .plain (.pop (← optInt j "i"))
+  | "replace" => return .replace (← pyv (j.getObjValD "us"))
+  | "setitem" => return .setItem (← getInt j "i") (← pyv (j.getObjValD "u"))
+  | "setslice" => return .setSlice (← optInt j "a") (← optInt j "b") (← optInt j "st") (← pyv (j.getObjValD "us"))
+  | "reverse" => return .plain .reverse
   | _ => throw s!"unknown list op {name}"
 
-def top (name : String) (j : Json) : Except String TOp := do
+def top (name : String) (j : Json) : Except String TVOp := do
   match name with
-  | "set" => return .set (← trackersVal (j.getObjValD "v"))
-  | "insert" => return .insert (← getInt j "i") (← tierVal (j.getObjValD "v"))
-  | "append" => return .append (← tierVal (j.getObjValD "v"))
-  | "extend" => return .extend (← tierVals (j.getObjValD "vs"))
-  | "iadd" => return .iadd (← tierVals (j.getObjValD "vs"))
-  | "delete" => return .delete (← getInt j "i")
-  | "delslice" => return .delSlice (← optInt j "a") (← optInt j "b")
-  | "clear" => return .clear
-  | "remove" => return .remove (← strs (j.getObjValD "us"))
-  | "pop" => return .pop (← optInt j "i")
-  | "replace" => return .replace (← tierVals (j.getObjValD "vs"))
-  | "setitem" => return .setItem (← getInt j "i") (← tierVal (j.getObjValD "v"))
-  | "setslice" => return .setSlice (← optInt j "a") (← optInt j "b") (← tierVals (j.getObjValD "vs"))
-  | "reverse" => return .reverse
+  | "set" =>
+    match j.getObjValD "v" with
+    | .null => return .plain (.set .none)
+    | .obj _ => return .plain (.set .other)
+    | v => return .set (← pyv v)
+  | "insert" => return .insert (← getInt j "i") (← pyv (j.getObjValD "v"))
+  | "append" => return .append (← pyv (j.getObjValD "v"))
+  | "extend" => return .extend (← pyv (j.getObjValD "vs"))
+  | "iadd" => return .iadd (← pyv (j.getObjValD "vs"))
+  | "delete" => return .plain (.delete (← getInt j "i"))
+  | "delslice" => return .plain (.delSlice (← optInt j "a") (← optInt j "b"))
+  | "clear" => return .plain .clear
+  | "remove" => return .plain (.remove (← strs (j.getObjValD "us")))
+  | "pop" => return .plain (.pop (← optInt j "i"))
+  | "replace" => return .replace (← pyv (j.getObjValD "vs"))
+  | "setitem" => return .setItem (← getInt j "i") (← pyv (j.getObjValD "v"))
+  | "setslice" => return .setSlice (← optInt j "a") (← optInt j "b") (← pyv (j.getObjValD "vs"))
+  | "reverse" => return .plain .reverse
   | _ => throw s!"unknown trackers op {name}"
 
-def sop (name : String) (j : Json) : Except String SOp := do
+def sop (name : String) (j : Json) : Except String SVOp := do
   match name with
-  | "set" => return .set (← seedVal (j.getObjValD "v"))
+  | "set" =>
+    match j.getObjValD "v" with
+    | .null => return .plain (.set .none)
+    | .obj _ => return .plain (.set .other)
+    | v => return .set (← pyv v)
   | _ => return .edit (← uop name j)
 
-def opOf (j : Json) : Except String Op := do
+def opOf (j : Json) : Except String VOp := do
   let on ← getStr j "on"
   let name ← getStr j "op"
   match on with
@@ -156,13 +175,13 @@ def runOp (j : Json) : Except String Json := do
   let obsJ := (getArr j "obs").toOption.getD []
   let blanks := jobj (tbl.map fun (s, _) => (s, jbool (isBlank s)))
   let initOk := Spec.holds isUrl init (readBack isUrl init)
-  let rec go (s : MI) (ops : List Op) (obs : List Json) (clean : Bool) (acc : List Json) :
+  let rec go (s : MI) (ops : List VOp) (obs : List Json) (clean : Bool) (acc : List Json) :
       Except String (List Json) :=
     match ops with
     | [] => pure acc.reverse
     | op :: rest => do
-      let (s', out) := step isUrl s op
-      let clean' := clean && !op.affected
+      let (s', out) := stepV isUrl s op
+      let clean' := clean && !(lowerOp op).affected
       let rb := readBack isUrl s'
       let specI ← match obs with
         | [] => pure Json.null
